@@ -1,6 +1,7 @@
 package main
 
 import (
+	"crypto/sha256"
 	"encoding/json"
 	"fmt"
 	"os"
@@ -23,6 +24,14 @@ type Mutant struct {
 	Rules   []string `json:"rules"`           // rules expected to fire (mutant) / checked to stay silent (equivalent; empty = all of the property)
 	Expect  string   `json:"expect"`          // substring of the construct key that must be reported
 	Note    string   `json:"note,omitempty"`
+	Whole   []Whole  `json:"whole,omitempty"` // whole-file replacements (independently written refactorings)
+}
+
+// Whole replaces one repository file by a stored variant, provided the file is still the one the variant was derived from.
+type Whole struct {
+	File string `json:"file"` // relative to the repository
+	With string `json:"with"` // relative to /verif
+	Base string `json:"base"` // sha256 of the repository file the variant was made from
 }
 
 type Edit struct {
@@ -92,7 +101,31 @@ func runSelfTest(repo, prop string, print bool, out map[string]any) int {
 		overlay := map[string][]byte{}
 		skipped := ""
 		edits := append([]Edit{{m.File, m.Find, m.Replace}}, m.Edits...)
+		if m.File == "" {
+			edits = m.Edits
+		}
+		for _, w := range m.Whole {
+			abs := filepath.Join(repo, w.File)
+			cur, err := os.ReadFile(abs)
+			if err != nil {
+				skipped = err.Error()
+				break
+			}
+			if fmt.Sprintf("%x", sha256.Sum256(cur)) != w.Base {
+				skipped = "the file this variant was derived from has changed: " + w.File
+				break
+			}
+			repl, err := os.ReadFile(filepath.Join(verifDir, w.With))
+			if err != nil {
+				skipped = err.Error()
+				break
+			}
+			overlay[abs] = repl
+		}
 		for _, e := range edits {
+			if skipped != "" {
+				break
+			}
 			abs := filepath.Join(repo, e.File)
 			src, ok := overlay[abs]
 			if !ok {
